@@ -38,6 +38,7 @@ type Options struct {
 	ForceName     bool // always name the operation
 	Defer         bool // add @defer to fragments
 	NoVariables   bool
+	Simple        bool // no duplicate/overlapping selections, fragments only on the enclosing object type
 	NoVarInObject bool
 	NoDirectives  bool
 	SecondOp      bool            // allow a second operation in the document
@@ -179,6 +180,12 @@ func (g *gen) possible(def *ast.Definition) []*ast.Definition {
 
 // spreadTargets lists type conditions that may be spread inside def.
 func (g *gen) spreadTargets(def *ast.Definition) []*ast.Definition {
+	if g.o.Simple {
+		if def.Kind == ast.Object {
+			return []*ast.Definition{def}
+		}
+		return g.possible(def)
+	}
 	poss := map[string]bool{}
 	for _, p := range g.possible(def) {
 		poss[p.Name] = true
@@ -279,13 +286,14 @@ func (g *gen) selSetX(def *ast.Definition, depth int, label string, inAbstractFr
 // level tracks one response-object level (a field's selection set including all fragments
 // spread into it): which composite response keys were already selected there.
 type level struct {
+	keys      map[string]bool // Simple mode: response keys used at this level
 	composite map[string]bool
 	rootKind  ast.DefinitionKind
 }
 
 func (g *gen) selSetL(def *ast.Definition, depth int, label string, inAbstractFragment bool, lv *level) string {
 	if lv == nil {
-		lv = &level{composite: map[string]bool{}, rootKind: def.Kind}
+		lv = &level{composite: map[string]bool{}, keys: map[string]bool{}, rootKind: def.Kind}
 	}
 	var parts []string
 	n := rapid.IntRange(1, 4).Draw(g.t, label+"n")
@@ -299,6 +307,12 @@ func (g *gen) selSetL(def *ast.Definition, depth int, label string, inAbstractFr
 			s := "__typename"
 			if rapid.IntRange(0, 5).Draw(g.t, label+"tal") == 0 && g.allow("typename-alias") {
 				s = g.next("t") + ": __typename"
+			}
+			if g.o.Simple && s == "__typename" {
+				if lv.keys[s] {
+					continue
+				}
+				lv.keys[s] = true
 			}
 			parts = append(parts, s)
 			g.feat["typename"] = true
@@ -350,6 +364,12 @@ func (g *gen) selSetL(def *ast.Definition, depth int, label string, inAbstractFr
 				alias = g.next("a")
 				g.feat["alias"] = true
 			}
+			if g.o.Simple && alias == "" {
+				if lv.keys[f.Name] {
+					continue
+				}
+				lv.keys[f.Name] = true
+			}
 			if composite && alias == "" {
 				// a composite response key is selected at most once per response-object level
 				// (across all fragments spread into it)
@@ -383,7 +403,7 @@ func (g *gen) selSetL(def *ast.Definition, depth int, label string, inAbstractFr
 			}
 			parts = append(parts, s)
 			// duplicate / overlapping occurrence of the same response key
-			if rapid.IntRange(0, 7).Draw(g.t, label+"dup") == 0 {
+			if rapid.IntRange(0, 7).Draw(g.t, label+"dup") == 0 && !g.o.Simple {
 				if composite && alias == "" && g.budget > 0 && lv.rootKind == ast.Object && !inAbstractFragment && (ft.Kind == ast.Object || g.allow("overlapping-abstract-field")) {
 					base := f.Name
 					if len(f.Arguments) > 0 {
